@@ -4,6 +4,7 @@ cd /verif
 run() { r=$(bin/seedtest-mir "$1" "$2" 2>&1 | grep -E 'VIOLATION|INCONCLUSIVE|seedtest-mir exit' | tr '\n' ' '); echo "$3 $2: $r" | cut -c1-260; }
 for s in "C05-a-parser-short-circuits-open-blocks C05" "C05-b-numopens-table-drops-unless C05" "C08-a-first-candidate-loses-ties C08" "C08-b-partial-shuffle-first C08" "C08-c-naive-shuffle-of-case-order C08" "C05-c-stray-close-run-eats-next-gene C05" \
          "C07-a-tournament-leave-out-by-value C07" "C07-c-tournament-king-of-the-hill C07" "C16-a-input-names-case-insensitive C16" "C19-c-input-prefix-match C19" "C09-a-serial-skips-small-populations C09" "C12-a-umad-delete-new-uses-addition-rate C12" "C16-b-lexicase-scratch-buffer C16" "C11-b-umad-empty-fallback C11" "C11-c-umad-new-argument-order C11" "C16-c2-umad-empty-coin-from-thread-rng C16" \
+         "C01-d-ifelse-lone-then-kept C01" "C02-d-failed-input-drops-binding C02" "C06-d-tournament-sit-out-swap-remove C06" "C08-d-case-order-over-all-results C08" "C16-d-two-point-redraw-from-thread-rng C16" "C10-a-two-point-bitstring-right-end C10" "C03-a-ifelse-fatal-underflow C03" \
          "C09-b-par-one-seeded-generator C09" "C09-c-par-batches-drop-remainder C09" "C09-c-par-batches-drop-remainder C09" "C01-b-loop-skips-count-on-recoverable C01" "C03-b-loop-uncounted-recoverable C03"; do
   set -- $s; run /verif/seeded/$1/patch.diff $2 "seed $1"
 done
